@@ -47,15 +47,36 @@ def run(cx):
         for m in ("open_bi", "accept_bi"):
             co = cx.coroutine(f"{CONN}::{m}")
             t = Origins(co).of_local(0)
-            ok = t[0] == "call" and name_matches(t[1], "Result::map") and term_has_call(t[2][0], f"quinn::connection::Connection::{m}")
-            ob.require(ok, f"wrapper/{m}", f"Connection::{m} returns {show(t)[:100]}", co.path)
-            cl = t[2][1] if ok else ("u",)
-            kb = prog.body(cl[2]) if cl[0] == "agg" else None
-            if kb is not None:
-                r = Origins(kb).of_local(0)
-                ok = r[0] == "agg" and r[1] == "tuple" and len(r[3]) == 2 and r[3][0][0] == "agg" and r[3][0][2].endswith("SendStream::SendStream") \
-                    and strip_identity(r[3][0][3][0])[0] == "field" and strip_identity(r[3][0][3][0])[2] == "0" and strip_identity(r[3][1])[0] == "field" and strip_identity(r[3][1])[2] == "1"
-                ob.require(ok, f"wrapper/{m}/pair", f"Connection::{m} maps the pair to {show(r)}", kb.path)
+            def pair_ok(r):
+                """(SendStream(x.0), x.1) of one pair x"""
+                if not (r[0] == "agg" and r[1] == "tuple" and len(r[3]) == 2 and r[3][0][0] == "agg" and r[3][0][2].endswith("SendStream::SendStream")):
+                    return None
+                s0, s1 = strip_identity(r[3][0][3][0]), strip_identity(r[3][1])
+                if s0[0] == "field" and s0[2] == "0" and s1[0] == "field" and s1[2] == "1" and strip_identity(s0[1]) == strip_identity(s1[1]):
+                    return strip_identity(s0[1])
+                return None
+            if t[0] == "call" and name_matches(t[1], "Result::map"):
+                # `.map(|(s, r)| (SendStream(s), r))` or `.map(wrap_fn)`
+                ok = term_has_call(t[2][0], f"quinn::connection::Connection::{m}")
+                ob.require(ok, f"wrapper/{m}", f"Connection::{m} returns {show(t)[:100]}", co.path)
+                cl = strip_identity(t[2][1]) if ok else ("u",)
+                kb = prog.body(cl[2]) if cl[0] == "agg" else prog.body(cl[1]) if cl[0] == "fnptr" else None
+                if kb is not None:
+                    r = Origins(kb).of_local(0)
+                    root = pair_ok(r)
+                    ob.require(root is not None and root[0] == "param", f"wrapper/{m}/pair", f"Connection::{m} maps the pair to {show(r)}", kb.path)
+                else:
+                    ob.fail("refuted", f"wrapper/{m}/pair", f"Connection::{m}: mapper {show(cl)[:60]} not analysable", co.path)
+            else:
+                # written out: `match quinn.{m}().await { Ok((s, r)) => Ok((SendStream(s), r)), Err(e) => Err(e) }`
+                alts = list(t[1]) if t[0] == "phi" else [t]
+                oks = [x for x in alts if x[0] == "agg" and str(x[2]).endswith("Result::Ok")]
+                ob.require(len(oks) == 1 and all((x[0] == "agg" and str(x[2]).endswith(("Result::Ok", "Result::Err"))) or term_has_call(x, "FromResidual::from_residual") for x in alts),
+                           f"wrapper/{m}", f"Connection::{m} returns {show(t)[:100]}", co.path)
+                if oks:
+                    root = pair_ok(strip_identity(oks[0][3][0]))
+                    okr = root is not None and term_has_call(root, f"quinn::connection::Connection::{m}") and any(x[0] == "variant" and x[2] in ("Ok", "Continue") for x in walk(root))
+                    ob.require(okr, f"wrapper/{m}/pair", f"Connection::{m} builds its Ok value from {show(oks[0])[:120]}", co.path)
 
     with cx.ob("C02.2", "R-FLOW", "do_rpc: one open_bi (no cycle); request on half 0, response from half 1 of the same stream; write → finish → read on every Ok path; no retry loop on the call path") as ob:
         co = cx.coroutine(f"{PEER}::do_rpc")
